@@ -60,7 +60,7 @@ type Scenario struct {
 	Poison bool `json:"poison,omitempty"`
 }
 
-var kinds = []string{"f7-header-copy", "f7-header-copy", "f6-replayed-txs", "f6-replayed-txs", "f1-header", "f1-data", "f1-pair", "f1-pair", "f2-header", "f2-data", "f3-unsigned", "f3-garbage-sig", "f4-chainid", "f4-past", "f4-future", "f5-header-bytes", "f5-data-bytes", "foreign-address"}
+var kinds = []string{"f8-data-meta-rewrite", "f8-data-meta-rewrite", "f7-header-copy", "f7-header-copy", "f6-replayed-txs", "f6-replayed-txs", "f1-header", "f1-data", "f1-pair", "f1-pair", "f2-header", "f2-data", "f3-unsigned", "f3-garbage-sig", "f4-chainid", "f4-past", "f4-future", "f5-header-bytes", "f5-data-bytes", "foreign-address"}
 
 func gen(t *rapid.T) Scenario {
 	sc := Scenario{InitialHeight: c02gen.GenInitial(t)}
@@ -188,6 +188,38 @@ func build(a Adv, c *fw.Chain) item {
 				signer.Address = types.KeyAddress(advPub)
 			}
 			it.sd = &types.SignedData{Data: d, Signature: sign(advPriv, bz), Signer: signer}
+			it.replayed = true
+		}
+	case "f8-data-meta-rewrite":
+		// a genuine signed-data blob whose METADATA (height, time, chain id, previous data hash) was rewritten
+		// by a third party, transactions, signature and signer untouched: whatever the proposer's signature
+		// covers, it must cover the metadata too
+		var src *types.SignedData
+		for i := range c.Blocks {
+			if c.Blocks[i].DataBlob != nil && (src == nil || i <= tgt) {
+				if d, err := fw.DecodeData(c.Blocks[i].DataBlob); err == nil {
+					src = d
+				}
+			}
+		}
+		if src == nil || src.Metadata == nil {
+			it.sd = evilData(base)
+		} else {
+			md := *src.Metadata
+			switch a.Mut % 5 {
+			case 0:
+				md.LastDataHash = sha256Sum([]byte("chosen-by-the-third-party"))
+			case 1:
+				md.Height++
+			case 2:
+				md.Height = base.Height()
+				md.Time = base.BaseHeader.Time
+			case 3:
+				md.Time++
+			default:
+				md.ChainID = md.ChainID + "-x"
+			}
+			it.sd = &types.SignedData{Data: types.Data{Metadata: &md, Txs: src.Txs}, Signature: src.Signature, Signer: src.Signer}
 			it.replayed = true
 		}
 	case "f7-header-copy":
